@@ -162,9 +162,12 @@ func c06Run(rc *simrt.RunCtx, tail bool) {
 		a, b := swarmNet(rc, "net.c2s", tkC.resend), swarmNet(rc, "net.s2c", tkS.resend)
 		a.healLat, b.healLat = healLat, healLat
 		a.faultsUntil, b.faultsUntil = healAt, healAt
-		if rc.Pick(3, "net.blackout") == 0 && faultLen > 2*time.Second {
+		if rc.Pick(2, "net.blackout") == 0 && faultLen > 2*time.Second {
 			from := t0 + time.Duration(rc.Pick(int(faultLen/time.Second), "net.bofrom"))*time.Second
-			w := window{from, from + time.Duration(1+rc.Pick(4, "net.bolen"))*time.Second}
+			// short blackouts are survived, long ones (beyond ping+pong) make
+			// one or both endpoints give up - the other side, which may be
+			// sitting on unacknowledged data, must then notice in bounded time
+			w := window{from, from + time.Duration(1+rc.Pick(30, "net.bolen"))*time.Second}
 			if w.to > healAt {
 				w.to = healAt
 			}
